@@ -319,7 +319,8 @@ def run(ctx) -> None:
     ctx.step(AD.carry_blocks, ctx)       # Time.add/subtract run on DateTime.add -> add_duration's carry chain
     from . import C09
     ctx.step(C09._abs_new, ctx)          # diff(abs=True) hands its microseconds to AbsoluteDuration: the breakdown it stores
-    ctx.step(C09._duration_new, ctx)     # ... and diff()/t2 - t1 to Duration
+    ctx.step(C09._duration_new, ctx)
+    ctx.step(C09._digits, ctx)           # ... whose hours / minutes / remaining_seconds are then read off lazily     # ... and diff()/t2 - t1 to Duration
     ctx.expect_min("UNITS.components", 2)
     ctx.expect_min("CARRIER", 5)
     ctx.expect_min("ORDER", 4)
